@@ -12,9 +12,13 @@ vars == <<cvars, nops>>
 NonceOf(w, bigEndian) == Prefix12 \o Enc32(w, bigEndian)
 Init == CInit /\ nops = 0
 Step(A) == nops < MaxOps /\ A /\ nops' = nops + 1
-DoNew     == \E w \in StartWords, g \in BOOLEAN, cv \in CtrValues, o \in BOOLEAN : (g \/ cv = <<0, 0>>) /\ Step(New(NonceOf(w, o), g, cv, o))
-DoInc     == \E g \in BOOLEAN, k \in Incs : (g \/ k = <<0, 1>>) /\ ~Carries(ctr, IF g THEN k ELSE One32) /\ Step(Inc(g, k))
-DoIncWrap == \E g \in BOOLEAN, k \in Incs : (g \/ k = <<0, 1>>) /\ Carries(ctr, IF g THEN k ELSE One32) /\ Step(Inc(g, k))
+\* (TLC's coverage report names the innermost defined operator: NewCase / IncPlain / IncWrapping / DoRead are the four actions)
+NewCase(w, g, cv, o) == (g \/ cv = <<0, 0>>) /\ Step(New(NonceOf(w, o), g, cv, o))
+IncPlain(g, k)       == (g \/ k = <<0, 1>>) /\ ~Carries(ctr, IF g THEN k ELSE One32) /\ Step(Inc(g, k))
+IncWrapping(g, k)    == (g \/ k = <<0, 1>>) /\ Carries(ctr, IF g THEN k ELSE One32) /\ Step(Inc(g, k))          \* the 32-bit wrap
+DoNew     == \E w \in StartWords : \E g \in BOOLEAN : \E cv \in CtrValues : \E o \in BOOLEAN : NewCase(w, g, cv, o)
+DoInc     == \E g \in BOOLEAN : \E k \in Incs : IncPlain(g, k)
+DoIncWrap == \E g \in BOOLEAN : \E k \in Incs : IncWrapping(g, k)
 DoRead    == phase = "live" /\ Step(Read)
 Next == DoNew \/ DoInc \/ DoIncWrap \/ DoRead
 Spec == Init /\ [][Next]_vars
